@@ -140,6 +140,13 @@ def bounded_leaf(c, tier, seed, per_cfg=None):
                 model[a + '_v'] = rnd.choice([0, 1, top, top >> 1, (top >> 1) + 1, rnd.randint(0, top), rnd.randint(0, top)]) & top
             for f in fields:
                 model['f_' + f] = rnd.choice([0, 1, 2, 3, rnd.randint(0, 255)])
+            for a in c.args:
+                big = 1 << max([w for _, w in names] + [int(cfg.get('width', 8))])
+                model['arg_' + a] = rnd.choice([0, 1, -1, -2, -3, -200, big - 1, big, big + 5, -big, -big - 1, rnd.randint(-4 * big, 4 * big), rnd.randint(-300, 300)])
+            if c.kind == 'method':
+                wdt = int(cfg.get('width', 8))
+                for f in ('value', 'next'):
+                    if f in c.symbolic: model['f_' + f] = rnd.randint(0, (1 << wdt) - 1)
             rep = L.replay_leaf(c, cfg, model)
             n += 1
             if rep.get('reproduced'):
@@ -238,10 +245,22 @@ def comb_item(name, cfg, tier='quick', timeout_s=10, seed=0):
     req = [ir.truth(x) for x in (b.requires(cfg, I) if b.requires else [])]
     widths = {n: w.getWidth() for n, w in outs.items()}
     widths.update({n: w.getWidth() for n, w in ins.items()})
-    spec = b.spec(cfg, I, widths)
+    O = {n: vals[id(w)] for n, w in outs.items()}
+    if getattr(b, 'swap', None):
+        # second evaluation of the same netlist with two inputs exchanged (commutativity clauses)
+        x, y = b.swap
+        byid2 = dict(byid); byid2[id(ins[x])] = I[y]; byid2[id(ins[y])] = I[x]
+        vals2 = nl.propagate(byid2)
+        O.update({n + "'": vals2[id(w)] for n, w in outs.items()})
+    spec = _call_spec(b, cfg, I, widths, O)
     obls = []
+    lemma_mode = {}
     for k, want in spec.items():
-        if k.startswith('pred:'):
+        if k.startswith('lemma:'):
+            # a mathematical fact the specification relies on, stated and discharged on its own (mode, hyps, goal)
+            mode_, hy_, goal_ = want
+            obls.append((k, list(hy_), ir.truth(goal_))); lemma_mode[k] = mode_
+        elif k.startswith('pred:'):
             obls.append((k, req, ir.truth(want)))
         else:
             w = outs[k]
@@ -251,18 +270,25 @@ def comb_item(name, cfg, tier='quick', timeout_s=10, seed=0):
     for path, r in nl.struct_fail:
         obls.append(('leaf_requires_structural[%s]' % path.split('/')[-1], [], ir.FALSE))
     for o in outs:
-        if o not in spec:
+        if o not in spec and not any(k.startswith('pred:') for k in spec):
             obls.append(('unspecified_output[%s]' % o, [], ir.FALSE))
     for (cl, hy, goal) in obls:
-        v = smt.prove(hy, goal, mode='bv', timeout_s=b.timeout or timeout_s)
+        v = smt.prove(hy, goal, mode=lemma_mode.get(cl, 'bv'), timeout_s=b.timeout or timeout_s, opaque_mul=bool(getattr(b, 'opaque_mul', False)))
         rep = None
-        if v.status == 'refuted':
+        if v.status == 'refuted' and cl not in lemma_mode:
             r = L.Result(base + '#' + cl, v, None, hy, goal, cfg, None, 'bv')
             v, rep = decide_with_replay(r, lambda m: replay_comb(b, cfg, m, spec, req), b.timeout or timeout_s, rounds=4)
         out.append({'oid': base + '#' + cl, 'status': v.status, 'mode': 'composition/width-grid', 'backend': v.backend,
                     'seconds': round(v.seconds, 4), 'reason': v.reason, 'model': v.model if v.status == 'refuted' else None,
                     'cfg': cfg, 'replay': rep, 'function': name, 'leaves': len(nl.prop)})
     return out
+
+
+def _call_spec(b, cfg, I, widths, O):
+    import inspect
+    if len(inspect.signature(b.spec).parameters) >= 4:
+        return b.spec(cfg, I, widths, O)
+    return b.spec(cfg, I, widths)
 
 
 def replay_comb(b, cfg, model, spec=None, req=None):
@@ -285,14 +311,26 @@ def replay_comb(b, cfg, model, spec=None, req=None):
         info.update(reproduced=True, got='raises %r' % (e,), expected='settles'); return info
     byid, I = N.input_vars(ins)
     widths = {n: w.getWidth() for n, w in outs.items()}; widths.update({n: w.getWidth() for n, w in ins.items()})
-    spec = b.spec(cfg, I, widths)
+    O = {n: ir.const(w.get()) for n, w in outs.items()}
+    if getattr(b, 'swap', None):
+        x, y = b.swap
+        vx, vy = ins[x].get(), ins[y].get()
+        ins[x].put(vy); ins[y].put(vx)
+        N.quiet(sim.propagateAll)
+        O.update({n + "'": ir.const(w.get()) for n, w in outs.items()})
+        ins[x].put(vx); ins[y].put(vy)
+        N.quiet(sim.propagateAll)
+    spec = _call_spec(b, cfg, I, widths, O)
     req = [ir.truth(x) for x in (b.requires(cfg, I) if b.requires else [])]
     try:
         if not all(ir.evaluate(r, env) for r in req):
             info.update(reproduced=False, note='model violates the block requires natively'); return info
         problems = {}
         for k, want in spec.items():
+            if k.startswith('lemma:'):
+                continue
             if k.startswith('pred:'):
+                if not ir.evaluate(ir.truth(want), env): problems[k] = (True, False)
                 continue
             w = outs[k]
             exp = ir.evaluate(ir.M(ir.as_int(want), w.getWidth()), env)
@@ -401,6 +439,10 @@ def seq_item(name, cfg, tier='quick', timeout_s=10, seed=0):
             obls.append(('out[%s]' % k, inv, ir.eq(ovals[id(w)], ir.M(ir.as_int(e), w.getWidth()))))
         for o in outs:
             if o not in ospec: obls.append(('unspecified_output[%s]' % o, [], ir.FALSE))
+        if sp.get('lemmas'):
+            # clauses of the statement that are consequences of the reference machine (checked on the machine)
+            for k, e in sp['lemmas'](cfg, S, I, S1).items():
+                obls.append(('statement_clause[%s]' % k, hy, ir.truth(e)))
         for i, (path, cond) in enumerate(nl.side):
             obls.append(('leaf_requires[%d:%s]' % (i, path.split('/')[-1]), hy, cond))
         for path, r in nl.struct_fail:
